@@ -6,13 +6,35 @@ import RB.Proofs.Lemmas.AdaptersC05
 namespace RB.Adapters
 
 
-/-- spaces and tabs -/
-def Blank (ws : List Char) : Prop := ws ≠ [] ∧ ∀ c ∈ ws, c = ' ' ∨ c = '\t'
+/-- a non-empty run of white space (Python's `\s`) -/
+def Blank (ws : List Char) : Prop := ws ≠ [] ∧ ∀ c ∈ ws, isSpace c = true
+
+/-- a white-space character (Python's `\s`) is no word character, digit, dot, colon, `=` or `i` -/
+theorem space_props (c : Char) (h : isSpace c = true) :
+    isWordDot c = false ∧ isWord c = false ∧ isDigit c = false ∧ c ≠ ':' ∧ c ≠ '.' ∧ c ≠ '=' ∧ c ≠ 'i' := by
+  have hw : isWord c = false := by
+    unfold isSpace at h
+    unfold isWord isAlpha isDigit extraWord
+    simp only [Bool.or_eq_true, Bool.and_eq_true, decide_eq_true_eq, beq_iff_eq] at h
+    simp only [Bool.or_eq_false_iff, Bool.and_eq_false_iff, decide_eq_false_iff_not, beq_eq_false_iff_ne,
+      List.contains_cons, List.contains_nil, Bool.or_false]
+    refine ⟨⟨⟨⟨?_, ?_⟩, ?_⟩, ?_⟩, ?_⟩
+    · omega
+    · omega
+    · omega
+    · intro e; subst e; simp at h
+    · omega
+  have hne : ∀ x : Char, isSpace x = false → c ≠ x := fun x hx e => by subst e; rw [h] at hx; cases hx
+  refine ⟨?_, hw, ?_, hne ':' (by decide), hne '.' (by decide), hne '=' (by decide), hne 'i' (by decide)⟩
+  · unfold isWordDot; simp [hw, hne '.' (by decide)]
+  · cases hd : isDigit c with
+    | false => rfl
+    | true => have : isWord c = true := by simp [isWord, hd]
+              rw [hw] at this; cases this
 def Digits (ds : List Char) : Prop := ds ≠ [] ∧ ∀ c ∈ ds, isDigit c = true
 def decVal (ip fp : List Char) : Rat := (digitsNat (ip ++ fp) : Rat) / pow10 fp.length
 
-theorem blank_space {ws : List Char} (h : Blank ws) : ∀ c ∈ ws, isSpace c = true := by
-  intro c hc; rcases h.2 c hc with e | e <;> (subst e; decide)
+theorem blank_space {ws : List Char} (h : Blank ws) : ∀ c ∈ ws, isSpace c = true := h.2
 
 theorem takeWhile_all {p : Char → Bool} (xs rest : List Char) (h : ∀ c ∈ xs, p c = true) (hs : stopsAt p rest) :
     (xs ++ rest).takeWhile p = xs ∧ (xs ++ rest).dropWhile p = rest := by
@@ -100,8 +122,7 @@ theorem blank_stop_wordDot {ws : List Char} (rest : List Char) (h : Blank ws) : 
   cases ws with
   | nil => exact absurd rfl hne
   | cons d ds =>
-    apply stopsAt_cons
-    rcases hd d (by simp) with e | e <;> (subst e; decide)
+    exact stopsAt_cons _ _ _ (space_props d (hd d (by simp))).1
 
 theorem stripPrefix_mismatch (l l' rest : List Char)
     (h : (match l.head?, l'.head? with | some a, some b => a != b | _, _ => false) = true) :
@@ -133,8 +154,7 @@ theorem blank_stop_digit {ws : List Char} (rest : List Char) (h : Blank ws) : st
   cases ws with
   | nil => exact absurd rfl hne
   | cons d ds =>
-    apply stopsAt_cons
-    rcases hd d (by simp) with e | e <;> (subst e; decide)
+    exact stopsAt_cons _ _ _ (space_props d (hd d (by simp))).2.2.1
 
 /-- a JMH result line: `Iteration` or `# Warmup Iteration`, the counter, the
 score (integer or decimal), the unit (no carriage return, not starting with
